@@ -61,6 +61,21 @@ impl<E: Edge, N: InnerNode<E>> DiagramRules<E, N, ZBDDTerminal> for ZBDDRules {
     fn cofactors(_tag: E::Tag, node: &N) -> Self::Cofactors<'_> {
         node.children()
     }
+
+    #[inline]
+    fn cofactor_skipped<M: Manager<Edge = E, InnerNode = N, Terminal = ZBDDTerminal>>(
+        manager: &M,
+        edge: &E,
+        n: usize,
+    ) -> E {
+        // A node is removed if its `hi` edge points to ∅. So no set below
+        // `edge` contains the variable of the skipped level.
+        if n == HI {
+            manager.get_terminal(ZBDDTerminal::Empty).unwrap()
+        } else {
+            manager.clone_edge(edge)
+        }
+    }
 }
 
 #[inline(always)]
